@@ -22,7 +22,7 @@ def Identifier_init(uri: "str") -> "Ident":
     ensures("uri", result.uri == uri)
 
 
-@contract("prov.identifier.Identifier.__str__", props=["C03", "C06"])
+@contract("prov.identifier.Identifier.__str__", props=["C03", "C06", "C10"])
 def Identifier_str(self: "Ident") -> "str":
     pure()
     ensures("str-is-uri", result == self.uri)
@@ -41,13 +41,13 @@ def Identifier_hash(self: "Ident") -> "int":
     ensures("hash-def", result == HashIdent(self))
 
 
-@contract("prov.identifier.QualifiedName.__init__", props=["C03", "C04"])
+@contract("prov.identifier.QualifiedName.__init__", props=["C03", "C04", "C10"])
 def QualifiedName_init(namespace: "Ns", localpart: "str") -> "QN":
     ensures("value", same(result, mkQN(namespace, localpart)))
     ensures("uri", result.uri == namespace.uri + localpart)
 
 
-@contract("prov.identifier.QualifiedName.__str__", props=["C03", "C06"])
+@contract("prov.identifier.QualifiedName.__str__", props=["C03", "C06", "C10"])
 def QualifiedName_str(self: "QN") -> "str":
     pure()
     ensures("str-def", result == (self.namespace.prefix + ":" + self.localpart
@@ -86,7 +86,7 @@ def Namespace_hash(self: "Ns") -> "int":
     ensures("hash-def", result == HashNs(self))
 
 
-@contract("prov.identifier.Namespace.__getitem__", props=["C03"])
+@contract("prov.identifier.Namespace.__getitem__", props=["C03", "C10"])
 def Namespace_getitem(self: "Ns", localpart: "str") -> "QN":
     pure()
     ensures("value", same(result, mkQN(self, localpart)))
